@@ -515,6 +515,12 @@ func (g *Gen) strConst(s string) string {
 			g.emit(evAssert, fmt.Sprintf("(assert (= (sat %s %s) %s))", n, g.idxConst(int64(i)), g.byteConst(s[i])))
 		}
 	}
+	if s == "" {
+		// the empty string is the unit of concatenation and the only string of length 0
+		g.emit(evAssert, "(assert (forall ((x Str)) (! (= (scat "+n+" x) x) :pattern ((scat "+n+" x)) :qid scat_unit_l)))")
+		g.emit(evAssert, "(assert (forall ((x Str)) (! (= (scat x "+n+") x) :pattern ((scat x "+n+")) :qid scat_unit_r)))")
+		g.emit(evAssert, "(assert (forall ((x Str)) (! (=> (= (slen x) "+g.idxConst(0)+") (= x "+n+")) :pattern ((slen x)) :qid empty_unique)))")
+	}
 	for _, o := range g.strOrder {
 		g.emit(evAssert, "(assert (not (= "+n+" "+g.strConsts[o]+")))")
 	}
